@@ -93,6 +93,25 @@ func (g *Graph) ValueDerivesOnlyFrom(e ast.Expr, allowed func(g *Graph, e ast.Ex
 			return false, e, id.Name + " is modified without a right-hand side (++, range or address taken)"
 		}
 		if len(rhs) == 0 {
+			// a parameter of a declared function: follow every module call site (one level per step)
+			if idx := g.paramIndex(v); idx >= 0 && depth <= 3 {
+				fobj, _ := g.Info.Defs[g.Decl.Name].(*types.Func)
+				sites := g.P.Index().CallersOf(fobj)
+				if len(sites) == 0 {
+					return false, e, id.Name + " is a parameter of " + g.Name + ", which has no module call site"
+				}
+				for _, s := range sites {
+					call, ok := s.Node.(*ast.CallExpr)
+					if !ok || s.In == nil || idx >= len(call.Args) {
+						return false, e, id.Name + " is a parameter of " + g.Name + ", whose value escapes as a function value in " + s.InName
+					}
+					cg := g.P.graphCached(g.P.SrcOf(s.In))
+					if ok, bad, why := cg.ValueDerivesOnlyFrom(call.Args[idx], allowed); !ok {
+						return false, bad, "through parameter " + id.Name + " of " + g.Name + " at " + g.P.Pos(call.Pos()) + ": " + why
+					}
+				}
+				return true, nil, ""
+			}
 			return false, e, id.Name + " has no definition in this function (parameter or captured variable)"
 		}
 		for _, r := range rhs {
